@@ -24,8 +24,16 @@ RULE = (
     "length <= 4 of (a)): the same operations are first run while some features of the final type system do not exist "
     "yet (on the type itself or on its supertype), so that paths naming them are looked up and sets through them "
     "refused, then the features are added with create_feature, fresh structures are built and the operations of "
-    "(b) run; every stage is compared with the step-by-step reading on the type system of that moment. "
-    "thorough: more of (b), (c) and length <= 6 in (a). A case is non-trivial when a string path has >= 3 segments."
+    "(b) run; every stage is compared with the step-by-step reading on the type system of that moment; "
+    "(d) features declared with the reserved UIMA names self / type (about 30 % of the types of (b); stored and "
+    "reachable as self_ / type_): guided walks replace a feature name by its near miss (type_ -> type, next -> next_) "
+    "with probability 0.3 / 0.03, and every path of <= 3 segments over {type_, type, self_, self, next} is read and "
+    "assigned on a two-node cycle of such a type; (e) paths of 1 100 .. 2 600 segments (and 300 .. 1 010 beside them) "
+    "round rings of 1..4 structures of random types, and a linked list of 1 040 .. 1 200 nodes (built-in list nodes or "
+    "a user type) read and assigned near the front, in the middle, at the last node and beyond the end: get, set, []= "
+    "and get again, some with a segment that names no feature. "
+    "thorough: more of (b), (c), (e), length <= 6 in (a) and <= 4 segments in (d). A case is non-trivial when a string "
+    "path has >= 3 segments."
 )
 TRUSTED = [
     "Coq 8.16.1 kernel and vm_compute; theorems in Props/C18.v are closed under the global context",
@@ -33,13 +41,16 @@ TRUSTED = [
     "objects, schema = effective feature names per type, str.split('.') and str.rindex('.') modelled on Coq strings",
     "correspondence harness: harness/props/C18.py builds real objects through the public API; harness/core.py compares in Coq",
     "the effective feature names of the built-in types used (Annotation, NonEmptyFSList, FSArray, ...) are a table in the "
-    "harness; inheritance of user types is computed from the scenario (C11 proves all_features is that set)",
+    "harness; inheritance of user types is computed from the scenario (C11 proves all_features is that set); the case "
+    "carries the DECLARED names and the model renames self/type to self_/type_ (Paths.declared), the oracle renames "
+    "them on its own (RESERVED table)",
     "primitive values are compared by a canonical text (kind:repr)",
     "staged scenarios: the model is stateless in the type system (get/set take the schema of the moment); each stage "
     "is rendered as its own case with the effective features of that moment and fresh structures",
 ]
 ASSUMPTIONS = [
-    "feature names are not among the reserved structural names (type, xmiID, self, get, set, value, ...): DESIGN.md preconditions",
+    "accessor names of features are not among the structural attribute names (type, xmiID, get, set, value, ...): "
+    "DESIGN.md preconditions; a feature DECLARED as self / type is inside (cassis stores it as self_ / type_)",
     "set_then_get needs the walk along the prefix not to read the assigned slot (refuted without it: C18_set_then_get_aliasing_refuted)",
     "structures created before a feature was added to their type are not accessed after the addition (they are instances "
     "of the superseded class and lack the slot, so plain attribute access itself raises); every stage works on structures "
@@ -56,7 +67,11 @@ BUILTIN_FEATURES = {
 }
 PY_ATTRS = ["type", "xmiID", "get", "set", "value", "__class__", "__slots__", "__dict__", "get_covered_text",
             "__init__", "typesystem", "name", "all_features", "__getitem__"]
-UNKNOWN = ["zzz", "Next", "nex", "heads", "a b", "0", "begin_", "-", "*"]
+UNKNOWN = ["zzz", "Next", "nex", "heads", "a b", "0", "begin_", "-", "*", "self"]
+# UIMA feature names that cassis cannot use as Python attribute names: create_feature stores (and looks up) the
+# feature under the accessor name with a trailing underscore.  Scenarios DECLARE features (schema lists, what is
+# passed to create_feature); slots, paths and the oracle use the accessor names.
+RESERVED = {"self": "self_", "type": "type_"}
 FEATURE_POOL = ["next", "b", "s", "n", "a", "x", "other", "prev"]
 RANGES = ["uima.cas.TOP", "uima.cas.String", "uima.cas.Integer", "uima.cas.Boolean", "uima.cas.FSArray",
           "uima.cas.NonEmptyFSList", "uima.cas.FSList", "SELF", "PEER"]
@@ -65,12 +80,22 @@ RANGES = ["uima.cas.TOP", "uima.cas.String", "uima.cas.Integer", "uima.cas.Boole
 # ------------------------------------------------------------------------------------------------ scenario helpers
 
 
-def effective_features(schema):
-    """type name -> ordered list of all feature names, from the scenario (own features + parents')."""
+def accessor(f):
+    return RESERVED.get(f, f)
+
+
+def declared_features(schema):
+    """type name -> ordered list of all feature names as declared, from the scenario (own features + parents')."""
     out = dict(BUILTIN_FEATURES)
     for t in schema:  # parents are listed before children
         out[t["name"]] = list(out[t["parent"]]) + [f for f, _r in t["features"]]
     return out
+
+
+def effective_features(schema):
+    """type name -> ordered list of the names under which the features are reachable (declared `self`/`type` are
+    `self_`/`type_`): the names step-by-step attribute access uses, and the only names that name a feature."""
+    return {t: [accessor(f) for f in fs] for t, fs in declared_features(schema).items()}
 
 
 def stages(sc):
@@ -128,6 +153,11 @@ def _rand_schema(rng):
         if not any(r.startswith("t.") or r == "uima.cas.TOP" for _f, r in feats):
             f = next(x for x in FEATURE_POOL + ["link"] if x not in taken and x not in [g for g, _ in feats])
             feats.append([f, name])
+        if rng.random() < 0.3:  # features declared with a reserved UIMA name (reachable as type_ / self_)
+            for f in rng.choice([["type"], ["self"], ["type", "self"], ["self", "type"]]):
+                if f not in taken:
+                    feats.insert(rng.randrange(len(feats) + 1),
+                                 [f, rng.choice(["uima.cas.String", "uima.cas.String", name, "uima.cas.TOP"])])
         schema.append({"name": name, "parent": parent, "features": feats})
     return schema
 
@@ -246,6 +276,8 @@ def _guided_path(rng, oh, root, maxlen):
             f = rng.choice(feats)
         else:
             f = rng.choice(FEATURE_POOL)
+        if rng.random() < (0.3 if f.endswith("_") else 0.03):
+            f = f[:-1] if f.endswith("_") else f + "_"  # a near miss of a feature name names no feature
         segs.append(f)
         cur = oh.step(cur, f)
     return segs
@@ -352,10 +384,152 @@ def _exhaustive(maxlen, staged=False):
         yield sc
 
 
+RES_SCHEMA = [{"name": "t.R", "parent": "uima.cas.TOP",
+               "features": [["type", "uima.cas.String"], ["self", "t.R"], ["next", "t.R"]]}]
+RES_OBJS = [{"t": "t.R", "slots": {"type_": ["p", ["s", "cause"]], "self_": ["r", 0], "next": ["r", 1]}},
+            {"t": "t.R", "slots": {"type_": ["p", ["s", "effect"]], "self_": ["r", 1], "next": ["r", 0]}},
+            {"t": "t.R", "slots": {}}]
+
+
+def _exhaustive_reserved(maxlen):
+    """Every path of <= maxlen segments over the accessor names of a type that declares `type` and `self`, and the
+    bare reserved names themselves, as get path and as set path on a two-node cycle."""
+    paths = [".".join(tup) for n in range(1, maxlen + 1)
+             for tup in itertools.product(["type_", "type", "self_", "self", "next"], repeat=n)]
+    per = 6
+    for i in range(0, len(paths), per):
+        chunk = paths[i:i + per]
+        ops = []
+        for j, s in enumerate(chunk):
+            ops.append({"k": ["get", "getitem"][j % 2], "root": j % 2, "path": ["s", s]})
+        for j, s in enumerate(chunk):
+            ops.append({"k": ["set", "setitem"][j % 2], "root": (i + j) % 2, "path": ["s", s],
+                        "v": [["p", ["s", f"v{j}"]], ["r", 2], None][(i + j) % 3]})
+            ops.append({"k": "get", "root": (i + j) % 2, "path": ["s", s]})
+        yield {"schema": RES_SCHEMA, "objs": json.loads(json.dumps(RES_OBJS)), "ops": ops}
+
+
+LONG_LENGTHS = [1100, 1250, 1500, 1900, 2600]   # segments; a few hundred more than the default call depth of CPython
+
+
+def _ring_heap(rng, schema):
+    """1..4 structures joined in a ring through one reference feature each (user types always have one, list nodes
+    have tail), the other slots random: a walk of any length exists from every structure."""
+    eff = effective_features(schema)
+    decl = {t["name"]: [accessor(f) for f, r in t["features"] if r.startswith("t.") or r == "uima.cas.TOP"] for t in schema}
+    for t in schema:  # inherited reference features count as well
+        decl[t["name"]] = decl.get(t["parent"], []) + decl[t["name"]]
+    ring_types = [t for t in decl if decl[t]] + ["uima.cas.NonEmptyFSList"]
+    n = rng.randint(1, 4)
+    objs, ring = [], []
+    for i in range(n):
+        t = rng.choice(ring_types)
+        f = "tail" if t == "uima.cas.NonEmptyFSList" else rng.choice(decl[t])
+        slots = {}
+        for g in eff[t]:
+            v = _rand_val(rng, n, p_none=0.3, p_prim=0.3)
+            if v is not None and g != "sofa":
+                slots[g] = v
+        slots[f] = ["r", (i + 1) % n]
+        objs.append({"t": t, "slots": slots})
+        ring.append(f)
+    return objs, ring
+
+
+def _long_walk(rng, oh, root, n_segs):
+    """n_segs - 1 steps along features that hold a reference (always possible on a ring heap), then any feature of the
+    structure reached."""
+    segs, cur, habit = [], ["r", root], {}
+    for k in range(n_segs - 1):
+        o = oh.objs[cur[1]]
+        refs = [f for f in oh.eff[o["t"]] if (o["slots"].get(f) or [None])[0] == "r"]
+        if not refs:
+            break
+        if k < 6 or rng.random() < 0.004:  # a free choice at the start and at a few places later on; otherwise the
+            f = rng.choice(refs)           # same turn is taken at the same structure (keeps the case file small)
+        else:
+            f = habit.setdefault(cur[1], rng.choice(refs))
+        segs.append(f)
+        cur = oh.step(cur, f)
+    segs.append(rng.choice(oh.eff[oh.objs[cur[1]]["t"]]))
+    return segs
+
+
+def _long_ops(rng, sc):
+    """get / set / []= through paths of more than a thousand segments, each set followed by get of the same path; one
+    long path with a segment in the middle, or the last one, that names no feature."""
+    oh = OracleHeap(sc)
+    n = len(sc["objs"])
+    ops = []
+    lengths = [rng.choice(LONG_LENGTHS), rng.choice(LONG_LENGTHS[:3]), rng.choice([300, 700, 990, 1010])]
+    rng.shuffle(lengths)
+    for i, n_segs in enumerate(lengths):
+        root = rng.randrange(n)
+        segs = _long_walk(rng, oh, root, n_segs)
+        bad = i == 2 or rng.random() < 0.2
+        if bad:
+            pos = rng.choice([len(segs) - 1, rng.randrange(len(segs))])
+            segs[pos] = rng.choice(UNKNOWN + ["", "type", "xmiID"])
+        path = ".".join(segs)
+        if i == 0:
+            ops.append({"k": rng.choice(["get", "getitem"]), "root": root, "path": ["s", path]})
+        v = _rand_val(rng, n)
+        if (oh.get(root, path) or [None])[0] == "r":
+            v = ["r", rng.randrange(n)]  # a reference is replaced by a reference: every structure keeps a way on
+        ops.append({"k": ["set", "setitem"][i % 2], "root": root, "path": ["s", path], "v": v})
+        oh.set(root, path, v)
+        ops.append({"k": rng.choice(["get", "getitem"]), "root": root, "path": ["s", path]})
+    r2 = rng.randrange(n)
+    ops.append({"k": "get", "root": r2, "path": ["s", ".".join(_guided_path(rng, oh, r2, 8))]})
+    return ops
+
+
+def _chain_case(rng):
+    """A genuine linked list of more than a thousand nodes (list nodes of the built-in type, or a user type with a
+    `n`ext feature), read and assigned at the front, in the middle, at the last node and beyond the end."""
+    n = rng.randint(1040, 1200)
+    if rng.random() < 0.5:
+        schema = [{"name": "t.A", "parent": "uima.cas.TOP", "features": [["n", "t.A"], ["x", "uima.cas.Integer"]]}]
+        t, nxt, val = "t.A", "n", "x"
+    else:
+        schema = [{"name": "t.A", "parent": "uima.cas.TOP", "features": [["a", "uima.cas.TOP"]]}]
+        t, nxt, val = "uima.cas.NonEmptyFSList", "tail", "head"
+    objs = [{"t": t, "slots": {nxt: ["r", i + 1], val: ["p", ["i", i]]}} for i in range(n - 1)]
+    if t == "t.A" or rng.random() < 0.5:
+        objs.append({"t": t, "slots": {val: ["p", ["i", n - 1]]}})
+    else:
+        objs.append({"t": "uima.cas.EmptyFSList", "slots": {}})
+    ops = []
+    depths = [rng.randint(1, 5), rng.randint(300, 900), n - 2, n + rng.randint(0, 3)]
+    rng.shuffle(depths)
+    for i, d in enumerate(depths):
+        path = ".".join([nxt] * d + [val])
+        if i == 0:
+            ops.append({"k": "getitem", "root": 0, "path": ["s", path]})
+        ops.append({"k": ["set", "setitem"][i % 2], "root": 0, "path": ["s", path], "v": ["p", ["i", -d]]})
+        ops.append({"k": ["get", "getitem"][i % 2], "root": 0, "path": ["s", path]})
+    ops.append({"k": "get", "root": rng.randint(1, 30), "path": ["s", ".".join([nxt] * (n - 40) + [val])]})
+    return {"schema": schema, "objs": objs, "ops": ops}
+
+
+def _long_cases(rng, tier):
+    n_ring, n_chain = {"quick": (5, 1), "thorough": (40, 4), "search": (30, 3)}[tier]
+    for _ in range(n_ring):
+        schema = _rand_schema(rng)
+        objs, _ring = _ring_heap(rng, schema)
+        sc = {"schema": schema, "objs": objs, "ops": []}
+        sc["ops"] = _long_ops(rng, sc)
+        yield sc
+    for _ in range(n_chain):
+        yield _chain_case(rng)
+
+
 def generate(rng, tier):
     if tier != "search":
         yield from _exhaustive(5 if tier == "quick" else 6)
         yield from _exhaustive(4 if tier == "quick" else 5, staged=True)
+        yield from _exhaustive_reserved(3 if tier == "quick" else 4)
+    yield from _long_cases(rng, tier)
     n_rand = {"quick": 1800, "thorough": 12000, "search": 6000}[tier]
     for _ in range(n_rand):
         schema = _rand_schema(rng)
@@ -412,6 +586,7 @@ def run_impl(cassis, sc):
     """One type system for the whole scenario; before each stage the features of that stage's schema that do not
     exist yet are created (types in scenario order, so a supertype's before its subtypes'), then the stage's own
     structures are built and its operations run."""
+    import warnings
     from cassis import TypeSystem
     ts = TypeSystem()
     for t in sc["schema"]:
@@ -422,7 +597,9 @@ def run_impl(cassis, sc):
         for t in st["schema"]:
             for f, r in t["features"]:
                 if (t["name"], f) not in created:
-                    ts.create_feature(ts.get_type(t["name"]), f, r)
+                    with warnings.catch_warnings():
+                        warnings.simplefilter("ignore")  # "reserved name ... renamed accessor"
+                        ts.create_feature(ts.get_type(t["name"]), f, r)
                     created.add((t["name"], f))
         out.append(_run_stage(ts, st))
     obs = out[-1]
@@ -526,7 +703,10 @@ def _oracle_stage(sc, obs):
     for i, (op, got) in enumerate(zip(sc["ops"], obs["results"])):
         p = op["path"]
         k = op["k"]
-        where = f"op {i} {k}({p[1] if p[0] == 's' else p!r}) on object {op['root']}"
+        shown = p[1] if p[0] == "s" else repr(p)
+        if len(shown) > 120:
+            shown = f"{shown[:60]}...{shown[-30:]} [{p[1].count('.') + 1} segments]"
+        where = f"op {i} {k}({shown}) on object {op['root']}"
         if p[0] != "s":
             want = ["err", "EAttribute"]
             if got[0] != "err":
@@ -571,8 +751,40 @@ def _gval(c):
     return f"(VPrim {gstr(c[1])})"
 
 
+def _rle(segs):
+    """[(count, block)...] with block * count concatenated in order == segs; blocks of <= 8 segments"""
+    blocks, lit, i = [], [], 0
+    while i < len(segs):
+        best = None
+        for p in range(1, 9):
+            blk = segs[i:i + p]
+            if len(blk) < p:
+                break
+            c = 1
+            while segs[i + c * p:i + (c + 1) * p] == blk:
+                c += 1
+            if c >= 3 and (best is None or c * p > best[0] * len(best[1])):
+                best = (c, blk)
+        if best is None:
+            lit.append(segs[i])
+            i += 1
+            continue
+        if lit:
+            blocks.append((1, lit))
+            lit = []
+        blocks.append(best)
+        i += best[0] * len(best[1])
+    if lit:
+        blocks.append((1, lit))
+    assert [s for c, blk in blocks for _ in range(c) for s in blk] == segs
+    return blocks
+
+
 def _gparg(p):
     k = p[0]
+    if k == "s" and p[1].count(".") >= 64:
+        blocks = _rle(p[1].split("."))
+        return "(PStr (rle " + glist([f"({gn(c)}, {glist([gstr(x) for x in blk])})" for c, blk in blocks]) + "))"
     if k == "s":
         return f"(PStr {gstr(p[1])})"
     if k == "none":
@@ -599,14 +811,23 @@ def render(sc, obs):
     sts = stages(sc)
     all_obs = list(obs.get("pre") or []) + [obs]
     used = sorted({o["t"] for st in sts for o in st["objs"]})
-    return glist([_render_stage(st, ob, used) for st, ob in zip(sts, all_obs)])
+    if max(len(st["objs"]) for st in sts) <= 40:
+        return glist([_render_stage(st, ob, used, gstr) for st, ob in zip(sts, all_obs)])
+    # a large heap: type and feature names are bound once (let s0 := "..." in ...) instead of being spelled per object
+    table = {}
+
+    def name(s):
+        return table.setdefault(s, f"s{len(table)}_")
+
+    body = glist([_render_stage(st, ob, used, name) for st, ob in zip(sts, all_obs)])
+    return "(" + "".join(f"let {v} := {gstr(s)} in " for s, v in table.items()) + body + ")"
 
 
-def _render_stage(sc, obs, used):
-    eff = effective_features(sc["schema"])
-    sch = glist([f"({gstr(t)}, {glist([gstr(f) for f in eff[t]])})" for t in used])
+def _render_stage(sc, obs, used, gname):
+    decl = declared_features(sc["schema"])  # the renaming self -> self_, type -> type_ is done by the model
+    sch = "(declared " + glist([f"({gstr(t)}, {glist([gstr(f) for f in decl[t]])})" for t in used]) + ")"
     heap = glist([
-        f"({gn(i)}, mkObj {gstr(o['t'])} {glist([f'({gstr(f)}, {_gval(canon_val(v))})' for f, v in o['slots'].items()])})"
+        f"({gn(i)}, mkObj {gname(o['t'])} {glist([f'({gname(f)}, {_gval(canon_val(v))})' for f, v in o['slots'].items()])})"
         for i, o in enumerate(sc["objs"])])
     ops = []
     for op, r in zip(sc["ops"], obs["results"]):
@@ -618,7 +839,7 @@ def _render_stage(sc, obs, used):
         else:
             t = f"OSet {gbool(k == 'setitem')} {gn(op['root'])} {_gparg(op['path'])} {_gval(canon_val(op['v']))}"
         ops.append(f"({t}, {_gobs(r)})")
-    final = glist([f"({gn(i)}, {glist([f'({gstr(f)}, {_gval(c)})' for f, c in slots])})" for i, slots in enumerate(obs["final"])])
+    final = glist([f"({gn(i)}, {glist([f'({gname(f)}, {_gval(c)})' for f, c in slots])})" for i, slots in enumerate(obs["final"])])
     return f"mkCase {sch} {heap} {glist(ops)} {final}"
 
 
@@ -652,14 +873,24 @@ def shrink_candidates(sc):
         c = json.loads(json.dumps(sc))
         del c["ops"][i]
         yield c
+    for i, op in enumerate(ops):  # long paths: drop blocks of segments, largest first
+        if op["path"][0] == "s" and op["path"][1].count(".") >= 24:
+            parts = op["path"][1].split(".")
+            size = len(parts) // 2
+            while size >= 8:
+                for j in range(0, len(parts) - size, size):
+                    c = json.loads(json.dumps(sc))
+                    c["ops"][i]["path"][1] = ".".join(parts[:j] + parts[j + size:])
+                    yield c
+                size //= 2
     for i, op in enumerate(ops):
-        if op["path"][0] == "s" and "." in op["path"][1]:
+        if op["path"][0] == "s" and "." in op["path"][1] and op["path"][1].count(".") < 40:
             parts = op["path"][1].split(".")
             for j in range(len(parts)):
                 c = json.loads(json.dumps(sc))
                 c["ops"][i]["path"][1] = ".".join(parts[:j] + parts[j + 1:])
                 yield c
-    for i, o in enumerate(sc["objs"]):
+    for i, o in enumerate(sc["objs"][:40]):
         for f in list(o["slots"]):
             c = json.loads(json.dumps(sc))
             del c["objs"][i]["slots"][f]
@@ -694,7 +925,20 @@ def distribution(scenarios, observations):
                 early_ops += 1
                 if op["path"][0] in ("s", "strlike") and set(op["path"][1].split(".")) & (names_final - now):
                     late_named += 1
+    def _declares_reserved(s):
+        return any(f in RESERVED for t in s["schema"] for f, _r in t["features"])
+
+    res_cases = [s for s in scenarios if _declares_reserved(s)]
     return {"cases": len(scenarios), "operations": sum(len(st["ops"]) for s in scenarios for st in stages(s)),
+            "paths_of_1000_or_more_segments": sum(1 for p in paths if p.count(".") >= 999),
+            "sets_ok_through_1000_or_more_segments": sum(1 for op, r in sets if r == ["ok"] and op["path"][0] == "s"
+                                                          and op["path"][1].count(".") >= 999),
+            "largest_heap": max([len(s["objs"]) for s in scenarios] or [0]),
+            "cases_declaring_self_or_type": len(res_cases),
+            "paths_naming_type__or_self_": sum(1 for p in paths if set(p.split(".")) & set(RESERVED.values())),
+            "paths_with_bare_self_or_type_on_such_cases": sum(
+                1 for s in res_cases for op in s["ops"]
+                if op["path"][0] == "s" and set(op["path"][1].split(".")) & set(RESERVED)),
             "staged_cases": len(staged), "operations_in_earlier_stages": early_ops,
             "earlier_operations_naming_a_later_feature": late_named,
             "string_paths": len(paths), "max_segments": max([p.count(".") + 1 for p in paths] or [0]),
@@ -712,7 +956,9 @@ MANIFEST = {
                   "path.split('.'), None propagates, set assigns exactly one slot (the last feature on the structure reached "
                   "by the prefix) or raises AttributeError leaving everything unchanged, get-after-set returns the value when "
                   "the prefix does not pass through the assigned slot (refuted otherwise), non-string paths are rejected, and "
-                  "the '.'-splitter and rindex are proved against join; the model is tied to /repo on every run by evaluating "
+                  "the '.'-splitter and rindex are proved against join; get/set are characterised by the segment list for every "
+                  "length (and set by peeling the first segment), and for every list of declared features the names self / "
+                  "type are features of no type (declared self/type live under self_/type_); the model is tied to /repo on every run by evaluating "
                   "it inside Coq on the cases the implementation was run on.",
     "level_note": "Trusted: Coq kernel + vm_compute; hand-written model coq/Paths.v; harness building real objects and rendering "
                   "cases; effective feature names of built-in types tabulated in the harness; primitives compared by canonical "
